@@ -16,6 +16,12 @@ impl Interpolation {
     pub fn add_char(&mut self, c: char) { unimplemented!() }
     #[verifier::external_body]
     pub fn add_interpolation(&mut self, other: Interpolation) { unimplemented!() }
+    // R13: `buffer.trailing_string().trim_end().ends_with(..)` - a test on the buffer's text,
+    // which this slice does not model: uninterpreted
+    #[verifier::external_body]
+    pub fn trailing_ends_with_comma(&self) -> bool { unimplemented!() }
+    #[verifier::external_body]
+    pub fn trailing_ends_with_comment_close(&self) -> bool { unimplemented!() }
 }
 #[derive(PartialEq, Eq, Clone, Copy)]
 pub enum QuoteKind { Quoted, None }
